@@ -141,6 +141,7 @@ static std::string handle(const std::vector<std::string> &t)
   detsched::name_object(&reader->force_flush_cv_, "ffcv");
   detsched::name_object(&reader->cv_m_, "cv_m");
   detsched::name_object(&reader->force_flush_m_, "ff_m");
+  detsched::name_object(&reader->shutdown_m_, "sd_m");
   reader->SetMetricProducer(&producer);  // OnInitialized(): spawns the worker = T0
   for (size_t r = 0; r < nrec; r++)
   {
